@@ -201,6 +201,24 @@ func checkListing(p *Prog, l *Ledger, keysT, valuesT string) {
 	// the shared ordering function: every key once, sorted, nothing else
 	sk := p.Func("interpreter.sortedKeys")
 	if sk == nil {
+		// the same function as a method of a named map type, or under another name: the one function of the interpreter
+		// that takes an object (map[string]interface{}) and returns []string
+		for _, fn := range p.ModuleFuncs() {
+			if fnPkgName(fn) != "interpreter" || len(fn.Params) != 1 || fn.Signature.Results().Len() != 1 || fn.Blocks == nil {
+				continue
+			}
+			mt, isMap := fn.Params[0].Type().Underlying().(*types.Map)
+			rt, isSl := fn.Signature.Results().At(0).Type().Underlying().(*types.Slice)
+			if isMap && isSl && isEmptyInterface(mt.Elem()) && typeStr(mt.Key()) == "string" && typeStr(rt.Elem()) == "string" {
+				if sk != nil {
+					sk = nil
+					break
+				}
+				sk = fn
+			}
+		}
+	}
+	if sk == nil {
 		l.Undecide(rule, "sortedKeys", "", "ordering function not found")
 		return
 	}
